@@ -47,6 +47,9 @@ GEOMETRY_ZOO = [
     "a = {'k': [1, 2, (3, 4)], 'j': {5, 6}}\nb = a['k'][2][0] + a.get('z', 0)\n",
     "lam = lambda q, r=2: q * r\nprint(lam(3), lam(r=1, q=2))\n",
     "@ spaced\n@(paren)\n@  other . attr (1)\ndef target(a):\n    return a\n\nclass K:\n    @ staticmethod\n    def m(v):\n        return v @ v\n",
+    "x.a.b = 1\nx = 3\nprint(x)\n",
+    "value[0].attr(value).other = value\nvalue\nprint(value)\n",
+    "call(call(call(arg)))\ncall(arg)\narg\n",
     "def target(a):\n    return a @b  # ends with @",
     "def first(a): return a\n@first\nclass Deco: pass  # @",
 ]
